@@ -122,7 +122,7 @@ void PSession::fresh_object(uint64_t prefill) {
 }
 
 void PSession::setup(int md, uint64_t prefill, const Bytes &doc, bool arr, int gm) {
-    max_depth = md; array_root = arr; guard_mode = gm; src = doc;
+    max_depth = md < 1 ? 1 : md > 255 ? 255 : md; array_root = arr; guard_mode = gm; src = doc;
     fresh_object(prefill);
 }
 
